@@ -30,6 +30,7 @@ type Spec struct {
 	MaxSteps        int64             `json:"max_steps"`
 	MaxSymLoop      int               `json:"max_sym_loop"`
 	MaxAlloc        int               `json:"max_alloc"`
+	AllocLimit      int64             `json:"alloc_limit"` // >0: a symbolic allocation size that can exceed this many elements is a violation
 	MaxSummaryPaths int               `json:"max_summary_paths"`
 	BranchTimeoutMs int               `json:"branch_timeout_ms"`
 	OblTimeoutMs    int               `json:"obl_timeout_ms"`
